@@ -13,6 +13,7 @@ import (
 	"github.com/ontio/ontology/common/config"
 	"github.com/ontio/ontology/core/types"
 	"github.com/ontio/ontology/smartcontract"
+	scontext "github.com/ontio/ontology/smartcontract/context"
 	"github.com/ontio/ontology/smartcontract/service/native"
 	nutils "github.com/ontio/ontology/smartcontract/service/native/utils"
 	nvm "github.com/ontio/ontology/smartcontract/service/neovm"
@@ -208,6 +209,7 @@ func shapeOf(v vmt.VmValue) string {
 		kids []vmt.VmValue
 		i    int
 		h    int
+		sz   float64 // number of values BuildParamToNative / Serialize visit below this container (sharing unfolded)
 	}
 	kidsOf := func(v vmt.VmValue) (unsafe.Pointer, []vmt.VmValue, bool) {
 		switch v.GetType() {
@@ -233,6 +235,7 @@ func shapeOf(v vmt.VmValue) string {
 	}
 	onPath := map[unsafe.Pointer]bool{p: true}
 	height := map[unsafe.Pointer]int{}
+	size := map[unsafe.Pointer]float64{}
 	st := []*fr{{p: p, kids: kids}}
 	for len(st) > 0 {
 		f := st[len(st)-1]
@@ -241,6 +244,7 @@ func shapeOf(v vmt.VmValue) string {
 			f.i++
 			kp, kk, ok := kidsOf(k)
 			if !ok {
+				f.sz++
 				continue
 			}
 			if onPath[kp] {
@@ -250,6 +254,7 @@ func shapeOf(v vmt.VmValue) string {
 				if h+1 > f.h {
 					f.h = h + 1
 				}
+				f.sz += size[kp] + 1
 				continue
 			}
 			onPath[kp] = true
@@ -258,12 +263,19 @@ func shapeOf(v vmt.VmValue) string {
 		}
 		delete(onPath, f.p)
 		height[f.p] = f.h
+		size[f.p] = f.sz
 		st = st[:len(st)-1]
-		if len(st) > 0 && f.h+1 > st[len(st)-1].h {
-			st[len(st)-1].h = f.h + 1
+		if len(st) > 0 {
+			if f.h+1 > st[len(st)-1].h {
+				st[len(st)-1].h = f.h + 1
+			}
+			st[len(st)-1].sz += f.sz + 1
 		}
 	}
 	h := height[p]
+	if size[p] > 1e7 {
+		return "shared-value-unfolding>1e7"
+	}
 	switch {
 	case h <= 10:
 		return "acyclic-depth<=10"
@@ -375,6 +387,10 @@ func runNative(w *world, addr common.Address, method string, args []byte, signer
 	cfg := &smartcontract.Config{Time: w.kit.Time + 1, Height: height, Tx: tx, BlockHash: w.kit.Ledger.GetCurrentBlockHash()}
 	sc := &smartcontract.SmartContract{Config: cfg, CacheDB: cache, Store: w.kit.Store, GasTable: ledgerkit.GasTable(), Gas: 20000000,
 		WasmExecStep: config.DEFAULT_WASM_MAX_STEPCOUNT, PreExec: pre}
+	// what NeoVmService.Invoke does before the script's Native.Invoke syscall reaches the native contract: the entry context
+	// (a native contract is never the bottom of the context stack of a transaction)
+	entry := []byte{0x00}
+	sc.PushContext(&scontext.Context{ContractAddress: common.AddressFromVmCode(entry), Code: entry})
 	ns, err := sc.NewNativeService()
 	if err != nil {
 		panic(err)
